@@ -462,6 +462,10 @@ class RSocketBase(RSocket, RSocketInternal):
 
         await self._stop_tasks()
 
+        # The receiver fails the pending streams when it ends. Requests made after it had already ended
+        # (the connection was lost earlier) are still registered: fail them as well.
+        self.stop_all_streams()
+
         await self._close_transport()
 
     async def _stop_tasks(self):
